@@ -63,6 +63,7 @@ def cases(tier):
     for i in range(len(TEMPLATES)):
         out.append({"name": f"structure/{i}", "kind": "structure", "i": i})
     out.append({"name": "concrete-tokens", "kind": "concrete"})
+    out.append({"name": "mixture-specification", "kind": "mixture"})
     return out
 
 
@@ -403,6 +404,51 @@ def run_structure_case(case, g, tier, res, on_path):
     explore_case(res, h, tier, on_path=on_path)
 
 
+def run_mixture_case(case, g, tier, res, on_path):
+    """the mixture specification: '.|<number>|' is an absolute mass, '.|<number>%|' a percentage, in every spelling of the number"""
+
+    def h(c):
+        pct = bool(c.fresh_bool("percent"))
+        style = (None, "plain", "sci", "sci-short", "int")[c.fresh_int("spelling", 0, 4).__index__()]
+        if style == "int":
+            v = c.fresh_int("m", 1, 100 if pct else 10**9)
+            num = Num(v, "int")
+        else:
+            v = c.fresh_real("m", 0, 100 if pct else None, lo_strict=True)
+            num = Num(v, "float", style)
+        via = c.fresh_int("via", 0, 2).__index__()
+        b = " " * c.fresh_int("blank", 0, 1).__index__()
+        spec = SymStr.of(".|", b, num, "%|" if pct else "|")
+        text = spec if via == 0 else SymStr.of("CC", spec) if via == 1 else SymStr.of("CC", spec, "C")
+
+        def detail(label):
+            def build(mv, c):
+                from symx.symstr import model_text
+
+                t = model_text(c, mv, text)
+                return (f"C02:mixture:{label}", f"{['Mixture', 'Molecule', 'System'][via]}({t!r}): {label}",
+                        {"kind": "mixture", "text": t, "via": via, "pct": bool(pct), "value": float(c.eval_in(mv, v)), "label": label})
+            return build
+
+        try:
+            obj = g.Mixture(text) if via == 0 else g.Molecule(text) if via == 1 else g.System(text)
+        except Exception as e:
+            core.reraise_if_harness(e)
+            c.prove(False, "valid notation accepted", detail("a valid mixture specification is rejected"))
+            return "rejected"
+        mix = obj if via == 0 else obj.mixture if via == 1 else obj._molecules[0].mixture
+        c.prove(mix is not None, "mixture specification recovered", detail("the mixture specification is lost"))
+        if pct:
+            c.prove(mix.relative_mass == v, "mixture specification recovered", detail("the written percentage is not recovered"))
+            if via != 2:
+                c.prove(mix.absolute_mass is None, "mixture specification recovered", detail("a percentage is read as an absolute mass"))
+        else:
+            c.prove(mix.absolute_mass == v, "mixture specification recovered", detail("the written absolute mass is not recovered"))
+        return "ok"
+
+    explore_case(res, h, tier, on_path=on_path)
+
+
 # ---------------------------------------------------------------------------
 # concrete templates: bracket atoms, two-letter atoms, rings, against RDKit
 
@@ -457,7 +503,8 @@ def _atoms_match(tok, ref):
 
 def run_case(case, g, tier, res):
     on_path = collector(res, PROPERTY)
-    {"token": run_token_case, "descriptor": run_descriptor_case, "structure": run_structure_case, "concrete": run_concrete_case}[case["kind"]](case, g, tier, res, on_path)
+    {"token": run_token_case, "descriptor": run_descriptor_case, "structure": run_structure_case, "concrete": run_concrete_case,
+     "mixture": run_mixture_case}[case["kind"]](case, g, tier, res, on_path)
 
 
 # ---------------------------------------------------------------------------
@@ -514,6 +561,18 @@ def replay(rp, gb):
             if len(ws) > 1 and (bd.transitions is None or list(bd.transitions) != ws or abs(bd.weight - sum(ws)) > 1e-9 * max(1, abs(sum(ws)))):
                 bad.append("list weight")
         return bool(bad), f"{t}: {bad}"
+    if rp["kind"] == "mixture":
+        t, via = rp["text"], rp["via"]
+        try:
+            obj = gb.Mixture(t) if via == 0 else gb.Molecule(t) if via == 1 else gb.System(t)
+        except Exception as e:
+            return "rejected" in rp["label"], f"{t!r} rejected: {type(e).__name__}: {e}"
+        mix = obj if via == 0 else obj.mixture if via == 1 else obj._molecules[0].mixture
+        if mix is None:
+            return True, "mixture specification lost"
+        got = mix.relative_mass if rp["pct"] else mix.absolute_mass
+        bad = got is None or abs(got - rp["value"]) > 1e-9 * max(1.0, abs(rp["value"])) or (rp["pct"] and via != 2 and mix.absolute_mass is not None)
+        return bad, f"{t!r}: written {rp['value']}{'%' if rp['pct'] else ''}, parsed relative={mix.relative_mass} absolute={mix.absolute_mass}"
     if rp["kind"] == "structure":
         T = TEMPLATES[rp["template"]]
         try:
